@@ -103,6 +103,7 @@ MonStep(m0, e) ==
   CASE e.k = "in" /\ e.op = "rx"  -> Rx(m, e)
     [] e.k = "in" /\ e.op # "rx"  -> Api(m, e)
     [] e.k = "out" /\ e.op \in {"offered", "stopped"} -> Notify(m, e)
+    [] e.k = "out" /\ e.op = "cl_applied" -> IF e.comp = "disc" THEN [m EXCEPT !.cl = FALSE] ELSE m
     [] e.k = "idle" -> Idle(m)
     [] e.k = "adv"  -> Adv(m, e.d)
     [] e.k = "exc"  -> Fail(m, "exception")
